@@ -236,6 +236,10 @@ pub struct StoreKnobs {
     /// listing order: true = lexical, false = seeded arbitrary
     pub list_lexical: bool,
     pub list_salt: u64,
+    /// multipart complete: true = fails with "Missing part" unless every part handed out has
+    /// completed (object_store's client-side part list, S3/GCS/Azure); false = assembles the parts
+    /// that arrived (object_store's InMemory / LocalFileSystem uploads do not validate)
+    pub mp_validates_parts: bool,
 }
 
 impl Default for StoreKnobs {
@@ -244,6 +248,7 @@ impl Default for StoreKnobs {
             delete_missing_ok: true,
             list_lexical: true,
             list_salt: 0,
+            mp_validates_parts: true,
         }
     }
 }
@@ -1090,7 +1095,7 @@ impl MultipartUpload for SimUpload {
             match g.uploads.remove(&self.id) {
                 // like object_store's `Parts::finish`: every part number handed out by put_part
                 // must have completed, otherwise the upload cannot be completed
-                Some(u) if u.parts.len() != u.next_part => Err(generic_err("Missing part")),
+                Some(u) if u.parts.len() != u.next_part && g.knobs.mp_validates_parts => Err(generic_err("Missing part")),
                 Some(u) => {
                     let mut out = Vec::new();
                     for (_, b) in u.parts.iter() {
